@@ -1,6 +1,6 @@
 (* Case runner for C08: decodes harness cases, runs the model, judges the implementation.
    Streams (harness/cmd/c08.go): cmp, sort, name, det, ser, ent. *)
-From PV Require Import M_Order S_Order Gen.Gen_Comparators.
+From PV Require Import M_Order S_Order M_Glue08 Gen.Gen_Comparators.
 Open Scope string_scope.
 Open Scope Z_scope.
 
@@ -55,6 +55,11 @@ Fixpoint go_sorted_terms (car : carrier) (c : chain) (l : list term) : bool :=
   | _ => true
   end.
 
+(* end-to-end layer: for every line / request the index of the first one that issues the same request *)
+Definition e2e_classes (i : term) : list (option nat) :=
+  if String.eqb (gs (gn i 0)) "e2e-session" then classes req_eqb (session_requests (gss (gn i 1)) [])
+  else classes String.eqb (map Some (gss (gn i 1))).
+
 Definition run_C08 (i : term) : term :=
   let op := gs (gn i 0) in
   if String.eqb op "cmp" then
@@ -74,6 +79,11 @@ Definition run_C08 (i : term) : term :=
   else if String.eqb op "det" then TL [TZ 1]
   else if String.eqb op "ser" then TL [TZ 1; TZ 1; TZ 1]
   else if String.eqb op "ent" then TL [TZ 1]
+  else if String.eqb op "e2e-cli" then
+    (* one outcome, whatever the run; accepted iff no multi-choice group and exactly one format flag *)
+    TL [TZ 1; TS (if cli_accepts (gss (gn i 1)) then "ok" else "err")]
+  else if String.eqb op "e2e-session" || String.eqb op "e2e-web" then
+    TL (map (fun c => match c with Some k => TL [TZ (Z.of_nat k)] | None => TL [] end) (e2e_classes i))
   else TL [TS "unknown-op"].
 
 (* ---- known-finding classes (decidable predicates of M_Order; the hypotheses of P_C08) ---- *)
@@ -118,6 +128,13 @@ Definition eqv_C08 (i m o : term) : bool :=
     (* the model says "one output"; inside a recorded class the implementation may differ *)
     in_known_class i || (gz (gn o 0) =? 1)
   else if String.eqb op "ent" then in_known_class i || term_eqb m o
+  else if String.eqb op "e2e-cli" then
+    (* a command line the glue model rejects must be rejected; one it accepts may still fail later, in
+       report generation (peek without a match ...), which is not modelled -- but always the same way *)
+    (gz (gn o 0) =? 1) && (String.eqb (gs (gn m 1)) "ok" || String.eqb (gs (gn o 1)) "err")
+  else if String.eqb op "e2e-session" || String.eqb op "e2e-web" then
+    (* the model predicts which observations must coincide, not their bytes *)
+    Nat.eqb (List.length (gl o)) (List.length (gss (gn i 1))) && classes_respected (e2e_classes i) (gl o)
   else term_eqb m o.
 
 Definition matrix_of (k : nat) (o : term) (a b : nat) : bool := gb (gn o (a * k + b)).
@@ -146,6 +163,10 @@ Definition spec_C08 (i o : term) : bool :=
   else if String.eqb op "det" then gz (gn o 0) =? 1
   else if String.eqb op "ser" then forallb (fun z => z =? 1) (gzs o) && Nat.eqb (List.length (gl o)) 3
   else if String.eqb op "ent" then gz (gn o 0) =? 1
+  else if String.eqb op "e2e-cli" then gz (gn o 0) =? 1
+  else if String.eqb op "e2e-session" || String.eqb op "e2e-web" then
+    (* "regardless of how often it has been run": equal requests, equal bytes *)
+    Nat.eqb (List.length (gl o)) (List.length (gss (gn i 1))) && classes_respected (e2e_classes i) (gl o)
   else true.
 
 Definition judge_C08 := judge_all run_C08 eqv_C08 spec_C08 cls_C08 0%Z.
